@@ -58,9 +58,13 @@ def check_C01(K, prop, tier, seed, t0):
         ("simple", dict(CFGS="U_C01_simple", MAXLEN=2 if q else 3)),
     ]
     fns = [(lambda nm=nm, p=p: K.run_gen_leg(prop, nm, p, workers=4, threads=4)) for nm, p in legs]
+    fns.append(lambda: K.run_trace_leg(prop, "T-c01", "c01", 300 if q else 20000, seed, shards=6))
+    fns.append(lambda: K.run_trace_leg(prop, "T-corpus", "corpus", 4000 if q else 80000, seed, shards=4))
     reps = K.run_legs(fns, parallel=4)
     return finish(K, prop, tier, seed, t0, "model_checking", reps, None, ASSUME_COMMON,
-                  "TLC enumerates every behaviour of ScannerApi (find_iter, next until None) for every pattern set of "
+                  "T: random real-syntax pattern sets (1-6 patterns) on random inputs of 10-120 characters, and the repository's own "
+                  "configurations (parol, veryl, string, lookahead fixtures) on slices of the repository's own inputs, validated by TLC. "
+                  "G: TLC enumerates every behaviour of ScannerApi (find_iter, next until None) for every pattern set of "
                   "the universe and every input up to MaxLen; each is replayed through the public API. "
                   "distinct_nontrivial = configurations that produced at least one token")
 
@@ -142,13 +146,39 @@ def equiv_check(kinds, what):
     return chk
 
 
+def iter_cfg(a, b):
+    return f"INIT IInit\nNEXT INext\nINVARIANT IInv\nCONSTANTS\n  FixLastChar = {a}\n  FixExhaust = {b}\nCHECK_DEADLOCK FALSE\n"
+
+
+def ff_cfg(a):
+    return f"INIT FInit\nNEXT FNext\nINVARIANT Refines\nCONSTANTS\n  FixCandidates = {a}\nCHECK_DEADLOCK FALSE\n"
+
+
+# layer-B models (design level): must refine the user-level specification; the unrepaired
+# variants must be refuted (non-vacuity)
+MODEL_LEGS = {
+    "C09": lambda q: [
+        ("M-IterImpl", "IterImpl", iter_cfg("TRUE", "TRUE"), dict(CFGS="U_C09", SYMS="Syms_C09", MAXLEN=4 if q else 5), False),
+        ("M-IterImpl-stale-last-char", "IterImpl", iter_cfg("FALSE", "TRUE"), dict(CFGS="U_C09", SYMS="Syms_C09", MAXLEN=3), True),
+        ("M-IterImpl-exhaust-at-last-position", "IterImpl", iter_cfg("TRUE", "FALSE"), dict(CFGS="U_C09", SYMS="Syms_C09", MAXLEN=3), True),
+    ],
+    "C05": lambda q: [
+        ("M-FindFrom", "FindFrom", ff_cfg("TRUE"), dict(CFGS="U_C05", SYMS="Syms_C04", MAXLEN=4, HI=2500 if q else "Len(Cfgs)"), False),
+        ("M-FindFrom-unrepaired", "FindFrom", ff_cfg("FALSE"), dict(CFGS="U_C05", SYMS="Syms_C04", MAXLEN=3, HI=400), True),
+    ],
+}
+
+
 def gt_check(gen_legs, profile, n_quick, n_thorough, rule):
-    """G legs (TLC-generated behaviours replayed) + one T leg (recorded random histories validated)."""
+    """G legs (TLC-generated behaviours replayed) + one T leg (recorded random histories validated)
+    (+ M legs: layer-B models checked against the user-level specification)."""
     def chk(K, prop, tier, seed, t0):
         q = tier == "quick"
         legs = gen_legs(q, seed)
         n = n_quick if q else n_thorough
         fns = [(lambda nm=nm, p=p: K.run_gen_leg(prop, nm, p, workers=5, threads=4)) for nm, p in legs]
+        for (nm, mod, cfg, params, neg) in MODEL_LEGS.get(prop, lambda q: [])(q):
+            fns.append(lambda nm=nm, mod=mod, cfg=cfg, params=params, neg=neg: K.run_model_leg(prop, nm, mod, cfg, params, expect_violation=neg, workers=4))
         fns.append(lambda: K.run_trace_leg(prop, "T-" + profile, profile, n, seed, shards=6))
         reps = K.run_legs(fns, parallel=4)
         return finish(K, prop, tier, seed, t0, "model_checking", reps, None, ASSUME_COMMON, rule)
@@ -433,7 +463,7 @@ def check_C14(K, prop, tier, seed, t0):
         K.log("\n".join(zero)); raise K.ToolError("MC_CacheConc: an action was never taken (vacuous model)")
     K.log(f"[model] CacheConc: {mdist} distinct states, invariants and liveness hold")
     # T: sampled real schedules
-    n = 200 if q else 20000
+    n = 120 if q else 20000
     rec = os.path.join(vroot, "threads")
     p = subprocess.run([K.HARNESS, "threads", str(n), str(seed), rec, "16" if not q else "8"], env=K.base_env(), stdout=subprocess.PIPE, stderr=subprocess.PIPE, text=True, timeout=3000)
     if p.returncode != 0:
